@@ -164,7 +164,8 @@ OffgridProblem(e) ==
 
 \* ---- C07: the acceptance quantity ------------------------------------------------
 \* scripted scalars of the tracing SSM (harness/tracing.py): component c in {0, 1}
-\*   std(X)[k][c]  = 2^-(id mod 4) (k+1)/2 (1+c)        mean(X)[k][c] = ((id mod 5) + 1 + k) (1 if c = 0 else 7)
+\*   std(X)[k][c]  = 2^-(id mod 4) (k+1)/2 (1+c)        mean(X)[k][c] = (-1)^id ((id mod 5) + 1 + k) (1 if c = 0 else 7)
+\*   (MeanBase below is the MAGNITUDE: the reference is max(|u_prev|, |u_new|))
 \*   rms(O)        = 1 + id/1024
 StdBase(id, k)  == RMul(R(1, 2 ^ (id % 4)), R(k + 1, 2))
 MeanBase(id, k) == RInt((id % 5) + 1 + k)
